@@ -367,7 +367,12 @@ def _job(args):
             for _warm in range(2):
                 fn(*[x.copy() if isinstance(x, np.ndarray) and x.ndim else x for x in a_call], **{k_: (v_.copy() if isinstance(v_, np.ndarray) and v_.ndim else v_) for k_, v_ in kw_call.items()})
             np.random.seed(seed % (2 ** 31))
-        out = fn(*a_call, **kw_call)
+        try:
+            out = fn(*a_call, **kw_call)
+        except TypeError as e_:
+            if styled is not None and any(t_ in str(e_) for t_ in ("unexpected keyword argument", "positional argument", "multiple values for")):
+                return []      # the signature itself changed (a renamed or removed parameter): an API matter, not this property's
+            raise
     attr = jn.split(".")[-1] if jn.split(".")[0][0].isupper() else jn
     if styled is None and attr not in J.INPLACE_BY_DESIGN and jn not in J.INPLACE_BY_DESIGN and "Hess_QR" not in jn:
         # the contract is about the matrix the CALLER holds: judge against the argument objects as they are after the call
